@@ -80,6 +80,10 @@ func c19Run(h c19Hist) (obs []c19Obs, final [][]int, failKey, failWhat string) {
 			arg = arrays[op.Arr][op.Off : op.Off+op.Len : op.Off+op.Cap]
 		}
 		argCopy := append([]string(nil), arg...)
+		// a value copy of the list taken before the call (b.Decs.Start = a.Decs.Start) must read the
+		// same afterwards: no method rewrites elements another list value can see
+		held := d
+		heldWant := append([]string(nil), d...)
 		switch op.Kind {
 		case "Append":
 			d.Append(arg...)
@@ -101,6 +105,9 @@ func c19Run(h c19Hist) (obs []c19Obs, final [][]int, failKey, failWhat string) {
 		case "Write":
 			arrays[op.Arr][op.Idx] = c19str(op.Val)
 			shadow[op.Arr][op.Idx] = c19str(op.Val)
+		}
+		if op.Kind != "Write" && !eqStrings([]string(held), heldWant) {
+			setFail("c19-copy-aliasing", fmt.Sprintf("step %d (%s): a value copy of the list taken before the call now reads %q, it read %q", step, op.Kind, []string(held), heldWant))
 		}
 		if !eqStrings([]string(d), ref) {
 			setFail("c19-contents", fmt.Sprintf("step %d (%s): list = %q, want %q", step, op.Kind, []string(d), ref))
